@@ -2021,14 +2021,21 @@ impl<const MIN_ALIGN: usize> Bump<MIN_ALIGN> {
             let mut base_size = (current_layout.size() - FOOTER_SIZE)
                 .checked_mul(2)?
                 .max(min_new_chunk_size);
+            // Halving stops making progress once `base_size` reaches zero, so
+            // remember when the zero-sized candidate has been produced and end
+            // the sequence there.
+            let mut exhausted = false;
             let chunk_memory_details = iter::from_fn(|| {
                 let bypass_min_chunk_size_for_small_limits = matches!(self.allocation_limit(), Some(limit) if layout.size() < limit
                             && base_size >= layout.size()
                             && limit < DEFAULT_CHUNK_SIZE_WITHOUT_FOOTER
                             && self.allocated_bytes() == 0);
 
-                if base_size >= min_new_chunk_size || bypass_min_chunk_size_for_small_limits {
+                if !exhausted
+                    && (base_size >= min_new_chunk_size || bypass_min_chunk_size_for_small_limits)
+                {
                     let size = base_size;
+                    exhausted = size == 0;
                     base_size /= 2;
                     Self::new_chunk_memory_details(Some(size), layout)
                 } else {
